@@ -17,8 +17,8 @@ import (
 // TestProp_Concurrent: the normalisation functions are functions of their arguments, also while other goroutines
 // normalise other texts with other maps
 func TestProp_Concurrent(t *testing.T) {
-	ev.Describe("concurrent", "4-12 texts of entity and attribute fragments with entity maps of their own, each run 200 times through ReplaceEntities, ReplaceMultipleWhitespace, ReplaceMultipleWhitespaceAndEntities, html.EscapeAttrVal, xml.EscapeAttrVal and xml.EscapeCDATAVal, first one after the other and then by as many goroutines at once (3 rounds behind a barrier); oracle: every goroutine gets what the same calls return alone; non-trivial = >= 4 goroutines")
-	ev.Check(t, 150, func(t *rapid.T) {
+	ev.Describe("concurrent", "4-12 texts of entity and attribute fragments with entity maps of their own, each run 1500 times through ReplaceEntities, ReplaceMultipleWhitespace, ReplaceMultipleWhitespaceAndEntities, html.EscapeAttrVal, xml.EscapeAttrVal and xml.EscapeCDATAVal, first one after the other and then by as many goroutines at once (3 rounds behind a barrier); oracle: every goroutine gets what the same calls return alone; non-trivial = >= 4 goroutines")
+	ev.Check(t, 40, func(t *rapid.T) {
 		n := rapid.IntRange(4, 12).Draw(t, "goroutines")
 		texts := make([][]byte, n)
 		ems := make([]map[string][]byte, n)
@@ -26,13 +26,15 @@ func TestProp_Concurrent(t *testing.T) {
 		var key []string
 		for i := range texts {
 			texts[i] = append(gen.Fragments(t, "frag", entFrags, 10), gen.Fragments(t, "attr", attrFrags, 4)...)
+			// and references that are rewritten into another form (every goroutine its own)
+			texts[i] = append(texts[i], fmt.Sprintf(" &#x%x; &#%d; &#x%X;", 0x700+i*83, 0x2000+i*211, 0x1F600+i)...)
 			ems[i], revs[i], _ = genMaps(t)
 			key = append(key, fmt.Sprintf("%q", texts[i]))
 		}
 		bad, alone, together := gen.Concurrently(n, 3, func(i int) string {
 			s := ""
 			var buf1, buf2, buf3 []byte
-			for r := 0; r < 200; r++ {
+			for r := 0; r < 1500; r++ {
 				cp := func() []byte { return append([]byte(nil), texts[i]...) }
 				a := parse.ReplaceEntities(cp(), ems[i], revs[i])
 				b := parse.ReplaceMultipleWhitespace(cp())
